@@ -38,31 +38,36 @@ theorem seq_same_mutations (l1 l2 : List Nat) (e e1 e2 : Eng) (w w1 w2 : World) 
   conv => rhs; rw [run_trace_ends h1]
   simp only [mutating_append, mutating_state, List.append_nil]
 
-/- **two segments = the concatenated program**, full statement:
+/- **two segments = the concatenated program**, full statement: for all programs, on every back end,
 
     run [p1, p2] = ok (ea, _, ta) → run [p1 ++ p2] = ok (eb, _, tb) → ta = tb ∧ …
 
-   for all programs on every back end.  It is FALSE on the current code for two independent reasons,
-   each recorded as a known finding with a `…_counterexample` below:
-   (a) the hand-over of samples `for k, v in enumerate(self.samples): p.reg_refs[k].val = v` enumerates
-       shots, not modes (`concat_handover_counterexample`);
-   (b) the bosonic back end re-initialises the simulator for every segment
-       (`concat_bosonic_counterexample`).
-   The proved part assumes exactly the negation of these two: -/
+   It is FALSE on the bosonic back end, which re-initialises the simulator for every segment (known
+   finding `bosonic-segment-reinit`, `concat_bosonic_counterexample` below).  Since the engine hands the
+   latest measured value of each subsystem over to the next segment (SF commit 1cfe20c) no hypothesis
+   about the hand-over is needed any more; the remaining hypotheses besides "not bosonic" are structural
+   facts true of every constructible pair of programs. -/
 
-/-- **two segments = the concatenated program** (Fock and Gaussian back ends, hand-over delivering the
-values the second segment reads): same call trace — including the closing `state` query — same
-position in the outcome stream, same final register. -/
-theorem concat_compositional_partial {e : Eng} {w : World} {i1 i2 i12 : Nat}
+/-- **two segments = the concatenated program** (Fock and Gaussian engines; all programs, all engine
+histories, feed-forward across the segment boundary included): same call trace — including the closing
+`state` query — same position in the outcome stream, same final register.  Hypotheses: `p12` is the
+concatenation (`hc hn hir hr`), `p1`/`p2` are different objects, `p1` and `p12` start with the same
+stored values and free-parameter bindings (e.g. never run), the compiled circuits read only subsystems
+that exist in `p1`'s final register, and `p2`'s register extends it. -/
+theorem concat_compositional_partial {e : Eng} {w : World} {i1 i2 i12 : Nat} {circ1 circ2 : List Cmd}
     (hbk : e.bk ≠ .bosonic)
     (hc : (progs i12).circuit = (progs i1).circuit ++ (progs i2).circuit)
     (hn : (progs i12).initN = (progs i1).initN)
     (hir : (progs i12).initRegs = (progs i1).initRegs)
     (hr : (progs i12).regs = (progs i2).regs)
-    (h0 : (progs i12).regs.any (fun r => decide (r.1 = 0)) = (progs i1).regs.any (fun r => decide (r.1 = 0)))
     (hne : i2 ≠ i1)
-    (hv : w.vals i12 = w.vals i1) (hf1 : w.free i1 = w.free i12) (hf2 : w.free i2 = w.free i12)
-    (hho : HandOverOK cp progs outc args e w i1 i2)
+    (hv : ∀ m ∈ idxs (progs i1).regs, w.vals i12 m = w.vals i1 m)
+    (hf1 : w.free i1 = w.free i12) (hf2 : w.free i2 = w.free i12)
+    (hd1 : decompList compileFuel cp (progs i1).circuit = .ok circ1)
+    (hd2 : decompList compileFuel cp (progs i2).circuit = .ok circ2)
+    (hsub : ∀ m ∈ idxs (progs i1).regs, m ∈ idxs (progs i2).regs)
+    (ho1 : ∀ m ∈ openDeps circ1, m ∈ idxs (progs i1).regs)
+    (ho2 : ∀ m ∈ openDeps circ2, m ∈ idxs (progs i1).regs)
     {ea eb : Eng} {wa wb : World} {ta tb : List Call}
     (ha : run cp progs outc args e w [i1, i2] = .ok (ea, wa, ta))
     (hb : run cp progs outc args e w [i12] = .ok (eb, wb, tb)) :
@@ -77,16 +82,24 @@ theorem concat_compositional_partial {e : Eng} {w : World} {i1 i2 i12 : Nat}
     | ok r2 =>
       obtain ⟨e2, w2, t2⟩ := r2
       simp only [h1, h2, Except.ok.injEq, Prod.mk.injEq] at ha hb
-      obtain ⟨ht, hm, hp⟩ := concat_runList hbk hc hn hir hr h0 hne hv hf1 hf2 hho h1 h2
+      obtain ⟨ht, hm, hp⟩ := concat_runList hbk hc hn hir hr hne hv hf1 hf2 hd1 hd2 hsub ho1 ho2 h1 h2
       rw [← ha.1, ← hb.1, ← ha.2.2, ← hb.2.2, ht]
       exact ⟨rfl, hm, hp⟩
 
-/-- the hand-over hypothesis is void when the second program measures everything it feeds forward
-itself (no measured parameter crosses the segment boundary) -/
-theorem handover_void_when_closed {e : Eng} {w : World} {i1 i2 : Nat} {circ2 : List Cmd}
-    (hd : decompList compileFuel cp (progs i2).circuit = .ok circ2) (ho : openDeps circ2 = []) :
-    HandOverOK cp progs outc args e w i1 i2 :=
-  handOverOK_of_closed hd ho
+/-- **the hand-over delivers the latest value of each subsystem**: after a segment the engine holds, for
+every index of the program's register, the value its RegRef holds, and the next program's RegRefs
+receive exactly these (subsystems the engine knows nothing about are reset to `None`). -/
+theorem handover_latest_values (regs : List (Nat × Bool)) (measured vals : Nat → Option Val) (m : Nat) :
+    (m ∈ idxs regs → handOver regs measured vals m = measured m) ∧
+    (m ∉ idxs regs → handOver regs measured vals m = vals m) := by
+  constructor
+  · intro h; simp [handOver, (hasIdx_iff regs m).2 h]
+  · intro h
+    have : hasIdx regs m = false := by
+      cases hh : hasIdx regs m with
+      | false => rfl
+      | true => exact absurd ((hasIdx_iff regs m).1 hh) h
+    simp [handOver, this]
 
 /-- compilation (recursive decomposition for the target compiler) commutes with concatenation -/
 theorem compile_concat (n : Nat) (a b : List Cmd) :
@@ -155,7 +168,7 @@ theorem decompose_fresh (h : Heap) (a : Nat) (t : Tmpl) :
     (∀ c ∈ (gateDecomposeH h a t).2, h.ops.length ≤ c.1) :=
   gateDecomposeH_fresh h a t
 
-/-! ### known findings: the two ways the full concatenation statement fails -/
+/-! ### known finding: where the full concatenation statement still fails -/
 
 def gaussianCp : Compiler :=
   { name := "gaussian", prims := ["MeasureHomodyne", "Dgate", "Rgate", "Sgate", "BSgate"],
@@ -178,14 +191,15 @@ def hoProgs : Nat → Prog
 
 def hoOutc : Nat → List Rat := fun k => if k = 0 then [1/4] else [3/4]
 
-/-- (a) hand-over: the second segment's `q[0].par` receives the whole row of samples (modes 0 *and* 2)
-instead of the value of mode 0, so the displacement is called with other arguments than in the
-concatenated program, although both runs succeed. -/
-theorem concat_handover_counterexample :
-    (run gaussianCp hoProgs hoOutc [] (fresh .gaussian []) emptyWorld [0, 1]).toOption.map (·.2.2) ≠
+/-- feed-forward across the segment boundary (the input on which the old enumerate-the-shots hand-over
+failed): the second segment's `q[0].par` now evaluates to the value measured on mode 0, both runs succeed
+and make the same calls; the hypotheses of `concat_compositional_partial` about open dependencies hold -/
+example :
+    (run gaussianCp hoProgs hoOutc [] (fresh .gaussian []) emptyWorld [0, 1]).toOption.map (·.2.2) =
     (run gaussianCp hoProgs hoOutc [] (fresh .gaussian []) emptyWorld [2]).toOption.map (·.2.2) ∧
     ((run gaussianCp hoProgs hoOutc [] (fresh .gaussian []) emptyWorld [0, 1]).toOption.map (·.2.2)).isSome ∧
-    ((run gaussianCp hoProgs hoOutc [] (fresh .gaussian []) emptyWorld [2]).toOption.map (·.2.2)).isSome := by
+    ((decompList compileFuel gaussianCp (hoProgs 1).circuit).toOption.map openDeps) = some [0] ∧
+    idxs (hoProgs 0).regs = [0, 1, 2] := by
   decide +kernel
 
 def bosProgs : Nat → Prog
@@ -197,7 +211,7 @@ def bosProgs : Nat → Prog
       [{ cls := "Dgate", pars := [.num ⟨1/4, 0⟩, .num {}], regs := [2] },
        { cls := "Rgate", pars := [.num ⟨1/2, 0⟩], regs := [1] }] }
 
-/-- (b) bosonic back end: the second segment starts with another `begin_circuit`, a state-changing
+/-- bosonic back end: the second segment starts with another `begin_circuit`, a state-changing
 call the concatenated program does not make (it wipes the state prepared by the first segment). -/
 theorem concat_bosonic_counterexample :
     (run gaussianCp bosProgs (fun _ => []) [] (fresh .bosonic []) emptyWorld [0, 1]).toOption.map
@@ -233,7 +247,7 @@ def trace (r : Except Err (Eng × World × List Call)) : Option (List Call) := r
 
 /-- seq/concat: both runs succeed, make 10 calls (begin_circuit, squeeze(−1/4), the four daggered
 products of S2gate in reverse order, measure_homodyne, displacement(−1/4), state) and agree; the
-second program's compiled circuit is closed, so the hand-over hypothesis holds -/
+second program's compiled circuit is closed -/
 example : trace (run gaussianCp exProgs exOutc exArgs (fresh .gaussian []) emptyWorld [0, 1]) =
       trace (run gaussianCp exProgs exOutc exArgs (fresh .gaussian []) emptyWorld [2]) ∧
     ((trace (run gaussianCp exProgs exOutc exArgs (fresh .gaussian []) emptyWorld [0, 1])).map List.length) = some 9 ∧
